@@ -118,6 +118,19 @@ def gen_group(rng):
             return {'op': 'group', 'kind': 'series', 's': s, 'by': rng.choice([0, 1])}, None
         s = {'index': C.rand_labels(rng, n, 'str' if n <= 12 else 'int'), 'vals': col['vals'], 'dt': col['dt'], 'name': ['s', 'nm']}
         return {'op': 'group', 'kind': 'series', 's': s, 'by': 'values'}, None
+    if rng.random() < 0.12 and n >= 2:
+        # two key columns of different types whose values read the same when written next to each other: (1, '1a') / (11, 'a'),
+        # ('a', 13) / ('a1', 3): distinct key tuples must stay distinct groups
+        if rng.random() < 0.5:
+            pairs = [(['i', 1], ['s', '1a']), (['i', 11], ['s', 'a']), (['i', 1], ['s', 'a']), (['i', 11], ['s', '1a'])]
+            dts = (['i', 64], ['U', 2])
+        else:
+            pairs = [(['s', 'a'], ['i', 13]), (['s', 'a1'], ['i', 3]), (['s', 'a'], ['i', 3]), (['s', 'a1'], ['i', 13])]
+            dts = (['U', 2], ['i', 64])
+        rows = [rng.choice(pairs[:rng.choice([2, 2, 3, 4])]) for _ in range(n)]
+        cols = [{'dt': dts[0], 'vals': [r[0] for r in rows]}, {'dt': dts[1], 'vals': [r[1] for r in rows]}, C.rand_column(rng, 'i', n)]
+        f = {'index': C.rand_labels(rng, n, 'str' if n <= 12 else 'int'), 'columns': [['s', 'k1'], ['s', 'k2'], ['s', 'v']], 'cols': cols, 'name': ['s', 'nm']}
+        return {'op': 'group', 'kind': 'frame', 'f': f, 'axis': 0, 'by': ['cols', [['s', 'k1'], ['s', 'k2']]], 'grow': False}, C.rand_layout(rng, f)
     nc = rng.randint(1, 4)
     kinds = [rng.choice('iiUbfO') for _ in range(nc)]
     cols = []
